@@ -368,9 +368,9 @@ pub fn run(ctx: &Ctx, stats: &mut Stats) {
         }
     }
     run_exhaustive(ctx, stats, "varint-edges", edge.into_iter(), &check_varint);
-    let nv = ctx.tier.pick(400_000, 4_000_000);
+    let nv = ctx.tier.pick(2_000_000, 20_000_000);
     run_prop(ctx, stats, "varint-random", nv, (0u32..64, any::<u64>()).prop_map(|(s, v)| VarCase(v >> s)), &check_varint);
-    let n = ctx.tier.pick(6_000, 150_000);
+    let n = ctx.tier.pick(60_000, 1_000_000);
     let c2 = ctx.clone();
     run_prop(ctx, stats, "histories", n, strat(), &move |c: &ArcCase| check_in(&c2, c));
 }
